@@ -579,6 +579,10 @@ def run(ctx):
         has_err = bool(errs) or any((g.callee(b) or "").endswith("anyhow::error::<impl anyhow::Error>::msg") or "anyhow" in (g.callee(b) or "") for b in g.call_blocks())
         ctx.inst("C01.R13", n_.replace(CORE, ""), not bad and has_err, "panicking calls: %s; builds an error for the wrong kind: %s" % (bad or "none", has_err), g.loc())
 
+    # ---------------- R14 explicit panic sites
+    from rules import panics
+    panics.explicit_panics(ctx, "C01.R14", [core, cli, wasm], G)
+
     # ---------------- R10 table lookups that `expect`
     ctx.rule("C01.R10", "operator_info's expect is discharged: every BinaryOp variant has exactly one row in PRECEDENCE_TABLE", floor=26)
     rows = c10.precedence_rows(core)
